@@ -112,8 +112,7 @@ var vxSemi = []Token{Literal{stringVal{Value: ";"}}}
 // error recovery is compositional: a ';' at the top level of a declaration list or of
 // a block's contents ends whatever construct precedes it, so what follows parses as if alone.
 func VxH_C06_compose_semicolon() {
-	max := 2 + vx.Tier()
-	a, b := vxToks("a", max), vxToks("b", max)
+	a, b := vxToks("a", 1+vx.Tier()), vxToks("b", 2)
 	whole := vxCat(a, vxSemi, b)
 	left := vxCat(a, vxSemi)
 	if vx.Bool("blocks") {
@@ -132,8 +131,7 @@ func VxH_C06_compose_semicolon() {
 // a qualified rule ends with its {} block, an at-rule at ';' or its block: the
 // following rule never loses its head and never receives a tail.
 func VxH_C06_compose_rules() {
-	max := 2 + vx.Tier()
-	pre, rest := vxToks("p", max), vxToks("r", max)
+	pre, rest := vxToks("p", 2), vxToks("r", 1+vx.Tier())
 	for _, t := range pre {
 		if t.Kind() == KCurlyBracketsBlock {
 			return // the prelude must not already hold a block
